@@ -1,6 +1,7 @@
 import Driver.Resolve
 import Driver.Sched
 import Driver.Output
+import Driver.Vars
 import Driver.Remote
 import Driver.Quote
 /-! Line protocol: `<op> <tok>*` in, one line out (`bad-op` for anything not understood). -/
@@ -14,6 +15,7 @@ def dispatch (line : String) : String :=
       if op.startsWith "resolve." then Driver.Resolve.handle op args
       else if op.startsWith "sched." then Driver.Sched.handle op args
       else if op.startsWith "output." then Driver.Output.handle op args
+      else if op.startsWith "vars." then Driver.Vars.handle op args
       else if op.startsWith "remote." then Driver.Remote.handle op args
       else if op.startsWith "quote." then Driver.Quote.handle op args
       else none
